@@ -75,7 +75,21 @@ Record aux := mkA {
   p_store : amap Z; p_cache : amap Z         (* Policy numeric settings by storage key (10, 18, 19, 20*256+attr) *)
 }.
 
-Record state := mkSt { L : ledger; A : aux }.
+(* Management contract record of a deployed contract: id, update counter, version of the NEF/manifest (1 or 2) *)
+Record mcontract := mkMC { mc_present : bool; mc_id : Z; mc_counter : Z; mc_version : Z }.
+Definition mc0 := mkMC false 0 0 0.
+
+(* Designate (RoleManagement) and ContractManagement: storage and caches *)
+Record ext := mkX {
+  ds_store : amap (list (Z * list N));   (* role -> records (effective height, sorted keys), NEWEST FIRST *)
+  ds_cache : amap (Z * list N);          (* DesignationCache: role -> (height, nodes) of the latest record *)
+  mg_store : amap mcontract;             (* storage prefix 8: contract account -> state *)
+  mg_cache : amap mcontract;             (* ManagementCache.contracts *)
+  mg_ids : amap (option N);              (* storage prefix 12: id -> contract account *)
+  mg_next : Z                            (* storage key 15: nextAvailableID *)
+}.
+
+Record state := mkSt { L : ledger; A : aux; X : ext }.
 
 (* ledger setters *)
 Definition set_neo (l : ledger) v := mkL v (l_neo_total l) (l_gas l) (l_gas_total l) (l_cands l) (l_voters l) (l_deps l) (l_events l).
@@ -98,14 +112,19 @@ Definition set_regprice (a : aux) s c := mkA (height a) (committee a) (ne_commit
 Definition set_blocked (a : aux) s c := mkA (height a) (committee a) (ne_committee a) (votes_changed a) (s_gpv a) (c_gpv a) (s_gpb a) (c_gpb a) (s_regprice a) (c_regprice a) s c (p_store a) (p_cache a).
 Definition set_policy (a : aux) s c := mkA (height a) (committee a) (ne_committee a) (votes_changed a) (s_gpv a) (c_gpv a) (s_gpb a) (c_gpb a) (s_regprice a) (c_regprice a) (s_blocked a) (c_blocked a) s c.
 
-Definition withL (st : state) (l : ledger) := mkSt l (A st).
-Definition withA (st : state) (a : aux) := mkSt (L st) a.
+Definition withL (st : state) (l : ledger) := mkSt l (A st) (X st).
+Definition withA (st : state) (a : aux) := mkSt (L st) a (X st).
+Definition withX (st : state) (x : ext) := mkSt (L st) (A st) x.
 
 (* ---------- readers ---------- *)
 Definition neo_acc (st : state) (a : N) : neoacc := aget na0 a (l_neo (L st)).
 Definition gas_bal (st : state) (a : N) : Z := aget 0 a (l_gas (L st)).
 Definition cand_of (st : state) (k : N) : cand := aget cand0 k (l_cands (L st)).
 Definition dep_of (st : state) (a : N) : dep := aget dep0 a (l_deps (L st)).
+
+(* the storage contract deployed by account a has the account index 100 + a *)
+Definition caddr (a : N) : N := (100 + a)%N.
+Definition contract_of (st : state) (a : N) : mcontract := aget mc0 (caddr a) (mg_cache (X st)).
 
 Definition emit (st : state) (e : event) : state := withL st (set_events (L st) (e :: l_events (L st))).
 
@@ -403,6 +422,7 @@ Definition wl_key (a : N) : N := (8192 + a)%N.
    (the unrepaired code leaves an existing cached entry with its old fee) *)
 Definition whitelist_set (st : state) (a : N) (fee : Z) : result :=
   if fee <? 0 then None else
+  if negb (mc_present (contract_of st a)) then None else
   let k := wl_key a in
   let c := if negb (aget 0 k (p_cache (A st)) =? 0) && negb (fix_whitelist cfg)
            then p_cache (A st) else aset k (fee + 1) (p_cache (A st)) in
@@ -411,6 +431,7 @@ Definition whitelist_set (st : state) (a : N) (fee : Z) : result :=
 (* Policy.removeWhitelistFeeContract: panics when the cache has no such entry *)
 Definition whitelist_remove (st : state) (a : N) : result :=
   let k := wl_key a in
+  if negb (mc_present (contract_of st a)) then None else
   if aget 0 k (p_cache (A st)) =? 0 then None else
   Some (withA st (set_policy (A st) (aset k 0 (p_store (A st))) (aset k 0 (p_cache (A st)))), None).
 
@@ -464,7 +485,7 @@ Definition notary_on_payment (st : state) (sender from : N) (amount : Z) (d : gd
   end.
 
 (* the body of GAS.transfer after the witness check *)
-Definition gas_transfer_core (st : state) (sender from to : N) (amount : Z) (d : gdata) : result :=
+Definition gas_transfer_core (st : state) (sender wit from to : N) (amount : Z) (d : gdata) : result :=
   let empty := N.eqb from to || (amount =? 0) in
   match gas_inc_balance st from (if empty then 0 else - amount) (Some amount) with
   | None => ok st false
@@ -481,11 +502,11 @@ Definition gas_transfer_core (st : state) (sender from to : N) (amount : Z) (d :
               | Some st4 => ok st4 true
               end
           | KNeo =>
-              (* NEO.onNEP17Payment: the exact register price, data = key witnessed by the transaction *)
+              (* NEO.onNEP17Payment: the exact register price, data = key witnessed by the transaction ([wit]) *)
               match d with
               | DKey k =>
                   if negb (amount =? c_regprice (A st3)) then None else
-                  if negb (N.eqb (key_acct k) sender) then None else
+                  if negb (N.eqb (key_acct k) wit) then None else
                   match gas_burn (register_internal st3 k) (a_neo cfg) amount with
                   | None => None
                   | Some st4 => ok st4 true
@@ -497,20 +518,20 @@ Definition gas_transfer_core (st : state) (sender from to : N) (amount : Z) (d :
       end
   end.
 
-Definition gas_transfer (st : state) (witnessed : bool) (sender from to : N) (amount : Z) (d : gdata) : result :=
+Definition gas_transfer (st : state) (witnessed : bool) (sender wit from to : N) (amount : Z) (d : gdata) : result :=
   if amount <? 0 then None else
   if negb witnessed then ok st false else
-  gas_transfer_core st sender from to amount d.
+  gas_transfer_core st sender wit from to amount d.
 
 (* Notary.withdraw *)
-Definition notary_withdraw (st : state) (witnessed : bool) (sender from : N) (to0 : option N) : result :=
+Definition notary_withdraw (st : state) (witnessed : bool) (sender wit from : N) (to0 : option N) : result :=
   if negb witnessed then ok st false else
   let to := match to0 with Some t => t | None => from end in
   let d := dep_of st from in
   if negb (dpresent d) then ok st false else
   if height (A st) - 1 <? dtill d then ok st false else
   let st1 := dep_put st from dep0 in
-  match gas_transfer_core st1 sender (a_notary cfg) to (damt d) DNone with
+  match gas_transfer_core st1 sender wit (a_notary cfg) to (damt d) DNone with
   | Some (st2, Some true) => ok st2 true
   | _ => None
   end.
@@ -522,6 +543,77 @@ Definition notary_lock (st : state) (witnessed : bool) (a : N) (till : Z) : resu
   if negb (dpresent d) then ok st false else
   if till <? dtill d then ok st false else
   ok (dep_put st a (mkDep true (damt d) till)) true.
+
+(* ---------- Designate (RoleManagement) ---------- *)
+Fixpoint nodup_N (l : list N) : bool :=
+  match l with [] => true | x :: t => negb (mem_N x t) && nodup_N t end.
+
+Definition ds_latest (st : state) (role : N) : Z * list N := aget (0, []) role (ds_cache (X st)).
+
+Fixpoint ds_lookup (recs : list (Z * list N)) (index : Z) : Z * list N :=
+  match recs with
+  | [] => (0, [])
+  | (h, ks) :: t => if h <=? index then (h, ks) else ds_lookup t index
+  end.
+
+(* Designate.GetDesignatedByRole: the cache holds the latest record only, older ones are looked up in storage *)
+Definition designated (st : state) (role : N) (index : Z) : Z * list N :=
+  let '(h, ks) := ds_latest st role in
+  if h <=? index then (h, ks) else ds_lookup (aget [] role (ds_store (X st))) index.
+
+Definition valid_role (role : N) : bool := N.eqb role 4 || N.eqb role 8 || N.eqb role 16 || N.eqb role 32.
+
+Fixpoint insert_key' (x : N) (l : list N) : list N :=
+  match l with [] => [x] | y :: t => if N.leb x y then x :: l else y :: insert_key' x t end.
+Definition sort_keys' (l : list N) : list N := fold_right insert_key' [] l.
+
+(* Designate.DesignateAsRole after the committee check: effective from the next block *)
+Definition designate_as_role (st : state) (role : N) (ks : list N) : result :=
+  if (Nat.eqb (length ks) 0) || (Nat.ltb 32 (length ks)) || negb (valid_role role) then None else
+  let idx := height (A st) + 1 in
+  let recs := aget [] role (ds_store (X st)) in
+  if match recs with (h, _) :: _ => h =? idx | [] => false end then None else
+  if negb (nodup_N ks) then None else
+  let rec := (idx, sort_keys' ks) in
+  let x := X st in
+  Some (withX st (mkX (aset role (rec :: recs) (ds_store x)) (aset role rec (ds_cache x))
+                      (mg_store x) (mg_cache x) (mg_ids x) (mg_next x)), None).
+
+(* ---------- ContractManagement ---------- *)
+Definition mg_put (st : state) (h : N) (c : mcontract) (ids : amap (option N)) (next : Z) : state :=
+  let x := X st in
+  withX st (mkX (ds_store x) (ds_cache x) (aset h c (mg_store x)) (aset h c (mg_cache x)) ids next).
+
+(* Policy.CleanWhitelist *)
+Definition whitelist_clean (st : state) (a : N) : state :=
+  withA st (set_policy (A st) (aset (wl_key a) 0 (p_store (A st))) (aset (wl_key a) 0 (p_cache (A st)))).
+
+(* Management.deploy by account a (hash depends on the sender) *)
+Definition mg_deploy (st : state) (a : N) : result :=
+  let h := caddr a in
+  if is_blocked st h then None else
+  if mc_present (contract_of st a) then None else
+  let id := mg_next (X st) in
+  Some (mg_put st h (mkMC true id 0 1) (aset (Z.to_N id) (Some h) (mg_ids (X st))) (id + 1), None).
+
+(* Management.update called by the contract of account a: whitelist cleaned, counter incremented *)
+Definition mg_update (st : state) (a : N) : result :=
+  let c := contract_of st a in
+  if negb (mc_present c) then None else
+  if mc_counter c =? 65535 then None else
+  let st1 := whitelist_clean st a in
+  Some (mg_put st1 (caddr a) (mkMC true (mc_id c) (mc_counter c + 1) 2) (mg_ids (X st1)) (mg_next (X st1)), None).
+
+(* Management.destroy called by the contract of account a: its hash is blocked, its whitelist entries and records go *)
+Definition mg_destroy (st : state) (a : N) : result :=
+  let c := contract_of st a in
+  if negb (mc_present c) then None else
+  match block_account st (caddr a) with
+  | None => None
+  | Some (st1, _) =>
+      let st2 := whitelist_clean st1 a in
+      Some (mg_put st2 (caddr a) mc0 (aset (Z.to_N (mc_id c)) None (mg_ids (X st2))) (mg_next (X st2)), None)
+  end.
 
 (* ---------- committee ---------- *)
 Definition cand_better (x y : N * Z) : bool :=      (* most votes first, ties by key order *)
@@ -578,15 +670,28 @@ Inductive op :=
 | OSetGPB (v : Z) | OSetReg (v : Z)
 | OBlock (a : N) | OUnblock (a : N)
 | OPolicy (key v : Z)
-| OWhitelist (a : N) (fee : option Z)   (* set / remove the whitelisted fee of contract a's method; the target contract's
-                                           existence is not modelled: a fault reported by the implementation is taken over *)
+| OWhitelist (a : N) (fee : option Z)   (* set / remove the whitelisted fee of the method "put" of the contract of a *)
+| ODesignate (role : N) (ks : list N)
+| ODeploy (a : N) | OUpdate (a : N) | ODestroy (a : N)
+| ODeployOther            (* a deployment of a contract the model does not follow: it takes the next contract id *)
 | OAbort                 (* a script that faults *)
 | OOpaque.               (* an invocation that does not touch the modelled contracts *)
 
-(* a transaction: signer account (pays), system fee, network fee, the committee key set that co-signed (empty when
-   none), the operation, and what the implementation reported: halted, boolean result *)
-Record tx := mkTx { t_signer : N; t_sysfee : Z; t_netfee : Z; t_csig : list N; t_op : op;
-                    i_halt : bool; i_res : option bool }.
+(* a transaction: sender account (pays), system fee, network fee, the committee key set that co-signed (empty when
+   none), the operation, what the implementation reported (halted, boolean result), and the NotaryAssisted
+   attribute when there is one: (NKeys, payer).  A transaction with the attribute is either sent by the Notary
+   contract itself (signers = [Notary with scope None; payer]: the fees are burnt from the contract's GAS and charged
+   to the payer's deposit in Notary.OnPersist, the payer's witness is the one the script sees) or has Notary among
+   its further signers (then the payer is the sender and pays as usual). *)
+Record tx := mkTxA { t_signer : N; t_sysfee : Z; t_netfee : Z; t_csig : list N; t_op : op;
+                     i_halt : bool; i_res : option bool; t_na : option (Z * N) }.
+Definition mkTx s f n c o h r : tx := mkTxA s f n c o h r None.
+
+(* the account whose witness the script sees *)
+Definition t_wit (t : tx) : N :=
+  if N.eqb (t_signer t) (a_notary cfg)
+  then match t_na t with Some (_, p) => p | None => t_signer t end
+  else t_signer t.
 
 Definition committee_witness (st : state) (t : tx) : bool :=
   match t_csig t with
@@ -596,22 +701,32 @@ Definition committee_witness (st : state) (t : tx) : bool :=
 
 Definition run_op (st : state) (t : tx) : result :=
   let s := t_signer t in
+  let w := t_wit t in
   match t_op t with
-  | ONeoT from to a => neo_transfer st (N.eqb from s) from to a
-  | OGasT from to a d => gas_transfer st (N.eqb from s) s from to a d
-  | OVote acc k => vote st (N.eqb acc s) acc k
+  | ONeoT from to a => neo_transfer st (N.eqb from w) from to a
+  | OGasT from to a d => gas_transfer st (N.eqb from w) s w from to a d
+  | OVote acc k => vote st (N.eqb acc w) acc k
   | OReg k budget => register_candidate st k budget
-  | OUnreg k => unregister_candidate st (N.eqb (key_acct k) s) k
-  | OWithdraw from to => notary_withdraw st (N.eqb from s) s from to
-  | OLock a till => notary_lock st (N.eqb a s) a till
+  | OUnreg k => unregister_candidate st (N.eqb (key_acct k) w) k
+  | OWithdraw from to => notary_withdraw st (N.eqb from w) s w from to
+  | OLock a till => notary_lock st (N.eqb a w) a till
   | OSetGPB v => if committee_witness st t then set_gas_per_block st v else None
   | OSetReg v => if committee_witness st t then set_register_price st v else None
   | OBlock a => if committee_witness st t then block_account st a else None
   | OUnblock a => if committee_witness st t then unblock_account st a else None
   | OPolicy key v => if committee_witness st t then policy_set st key v else None
   | OWhitelist a fee =>
-      if committee_witness st t && i_halt t
+      if committee_witness st t && hf_faun cfg   (* the methods exist from Faun on *)
       then match fee with Some f => whitelist_set st a f | None => whitelist_remove st a end
+      else None
+  | ODesignate role ks => if committee_witness st t then designate_as_role st role ks else None
+  | ODeploy a => mg_deploy st a
+  | OUpdate a => mg_update st a
+  | ODestroy a => mg_destroy st a
+  | ODeployOther =>
+      if i_halt t then
+        let x := X st in
+        Some (withX st (mkX (ds_store x) (ds_cache x) (mg_store x) (mg_cache x) (mg_ids x) (mg_next x + 1)), i_res t)
       else None
   | OAbort => None
   | OOpaque => if i_halt t then Some (st, i_res t) else None
@@ -643,14 +758,69 @@ Fixpoint burn_fees (st : state) (txs : list tx) : option state :=
 
 Definition primary (st : state) : N := key_acct (nth 0 (next_validators st) 0%N).
 
+(* NKeys + 1 summed over the transactions with the NotaryAssisted attribute *)
+Definition na_fees (txs : list tx) : Z :=
+  fold_right (fun t s => match t_na t with Some (nk, _) => nk + 1 + s | None => s end) 0 txs.
+
+(* the primary gets the network fees less the NotaryAssisted part, which Notary.OnPersist mints to the notary nodes *)
 Definition gas_on_persist (st : state) (txs : list tx) : option state :=
   match txs with
   | [] => Some st
   | _ =>
       match burn_fees st txs with
       | None => None
-      | Some st1 => gas_mint st1 (primary st1) (fold_right (fun t s => t_netfee t + s) 0 txs) false
+      | Some st1 =>
+          gas_mint st1 (primary st1)
+                   (fold_right (fun t s => t_netfee t + s) 0 txs - na_fees txs * attr_fee_notary st1) false
       end
+  end.
+
+(* Notary.OnPersist, first half: the fees of the transactions sent by the Notary contract are taken from the payer's
+   deposit; None = panic (no deposit / negative deposit: the block is invalid) *)
+Fixpoint charge_deposits (st : state) (txs : list tx) : option state :=
+  match txs with
+  | [] => Some st
+  | t :: r =>
+      match t_na t with
+      | Some (_, p) =>
+          if N.eqb (t_signer t) (a_notary cfg) then
+            let d := dep_of st p in
+            if negb (dpresent d) then None else
+            let amt := damt d - (t_sysfee t + t_netfee t) in
+            if amt <? 0 then None else
+            charge_deposits (dep_put st p (if amt =? 0 then dep0 else mkDep true amt (dtill d))) r
+          else charge_deposits st r
+      | None => charge_deposits st r
+      end
+  end.
+
+Fixpoint mint_each (st : state) (accts : list N) (amount : Z) : option state :=
+  match accts with
+  | [] => Some st
+  | a :: r => match gas_mint st a amount false with None => None | Some st1 => mint_each st1 r amount end
+  end.
+
+(* the nodes designated for the role P2PNotary (32) as GetDesignatedByRole(.., MaxUint32) answers *)
+Definition notary_nodes (st : state) : list N := snd (designated st 32%N 4294967295).
+
+(* Notary.OnPersist, second half: (NKeys + 1) * fee per key, divided evenly (rounding down) between the notary nodes *)
+Definition notary_on_persist (st : state) (txs : list tx) : option state :=
+  match charge_deposits st txs with
+  | None => None
+  | Some st1 =>
+      let nf := na_fees txs in
+      if nf =? 0 then Some st1 else
+      match notary_nodes st1 with
+      | [] => Some st1
+      | ns => mint_each st1 (map key_acct ns) (nf * attr_fee_notary st1 / Z.of_nat (length ns))
+      end
+  end.
+
+(* OnPersist of GAS, then of Notary (the order of the contract ids; NEO's ran before) *)
+Definition natives_on_persist (st : state) (txs : list tx) : option state :=
+  match gas_on_persist st txs with
+  | None => None
+  | Some st1 => notary_on_persist st1 txs
   end.
 
 (* voter rewards of NEO.PostPersist at an epoch start *)
@@ -689,7 +859,7 @@ Definition neo_post_persist (st : state) : option state :=
 (* one block; None = the model considers the block invalid (a fee not covered) *)
 Definition run_block (st : state) (txs : list tx) : option state :=
   let st0 := withA st (set_height (A st) (height (A st) + 1)) in
-  match gas_on_persist (neo_on_persist st0) txs with
+  match natives_on_persist (neo_on_persist st0) txs with
   | None => None
   | Some st1 => neo_post_persist (fold_left exec_tx txs st1)
   end.
@@ -706,7 +876,8 @@ Definition genesis_init : state :=
             [mkEv GAS None (Some validators_acct) (gas_initial cfg); mkEv NEO None (Some validators_acct) 100000000])
        (mkA 0 cm cm true [] [] [(0, 500000000)] [(0, 500000000)] 100000000000 100000000000 [] []
             [(10%N, 1000); (18%N, if hf_faun cfg then 300000 else 30); (19%N, 100000); (Z.to_N (5120 + 34), 10000000)]
-            [(10%N, 1000); (18%N, if hf_faun cfg then 300000 else 30); (19%N, 100000); (Z.to_N (5120 + 34), 10000000)]).
+            [(10%N, 1000); (18%N, if hf_faun cfg then 300000 else 30); (19%N, 100000); (Z.to_N (5120 + 34), 10000000)])
+       (mkX [] [] [] [] [] 1).
 
 (* block 0: after Initialize, NEO.OnPersist (height 0 starts an epoch) and NEO.PostPersist run like in every block *)
 Definition genesis : state :=
@@ -715,12 +886,17 @@ Definition genesis : state :=
   | None => genesis_init
   end.
 
+(* Designate.InitializeCache / Management.InitializeCache: the caches are what storage says *)
+Definition reinit_ext (x : ext) : ext :=
+  mkX (ds_store x) (map (fun '(r, recs) => (r, match recs with rec :: _ => rec | [] => (0, []) end)) (ds_store x))
+      (mg_store x) (mg_store x) (mg_ids x) (mg_next x).
+
 (* ---------- restart: the caches re-initialised from storage (InitializeCache of NEO and Policy) ---------- *)
 Definition reinit (st : state) : state :=
   let a := A st in
   let a1 := mkA (height a) (committee a) (committee a) true (s_gpv a) [] (s_gpb a) (s_gpb a)
                 (s_regprice a) (s_regprice a) (s_blocked a) (s_blocked a) (p_store a) (p_store a) in
-  let st1 := mkSt (L st) a1 in
+  let st1 := mkSt (L st) a1 (reinit_ext (X st)) in
   if (height a + 1) mod csize =? 0
   then withA st1 (set_ne_committee a1 (compute_committee st1))
   else st1.
